@@ -6,7 +6,6 @@
 -/
 import Desync.Properties.C03
 import Desync.Proofs.RemoteStoresProofs
-import Desync.Proofs.RemoteStoresShapes
 
 namespace Desync.C03
 open Desync
@@ -65,14 +64,5 @@ example : (s3GetChunk (fun b => b) some 2 [1] [] false
     (s3GetChunk (fun b => b) some 0 [1] [] false (fun _ => .body [2])).1 = .invalid ∧
     (s3GetChunk (fun b => b) some 1 [1] [] false (fun _ => .noSuchKey)) = (.missing, 2) := by
   simp [s3GetChunk, s3GetLoop, GetOutcome.failed, construct, newChunkFromStorage, ChunkObj.getData, ChunkObj.getID, fromStorage]
-
-/-- **regenerated obligations** (statement skeletons, `Proofs/RemoteStoresShapes.lean`) -/
-theorem gen_remote_s3_get :
-    Gen.site_remote_s3_get_found = true ∧ Gen.remoteS3GetSkel = Remote.Expected.remoteS3GetSkel :=
-  Remote.gen_remote_s3_get
-
-theorem gen_remote_sftp_get :
-    Gen.site_remote_sftp_get_found = true ∧ Gen.remoteSftpGetSkel = Remote.Expected.remoteSftpGetSkel :=
-  Remote.gen_remote_sftp_get
 
 end Desync.C03
